@@ -50,6 +50,22 @@ fn budget(tier: &str) -> Budget {
 fn make_spec(seed: u64, phase: &str, idx: u64, pool: &Pool) -> RunSpec {
     let mut rng = Rng::new(mix(seed, phase, idx));
     let mut spec = wgen::gen_workload(&mut rng, pool);
+    // a pre-existing output that looks up to date: exactly as long as the new
+    // document and newer than the input, but different (size/mtime heuristics)
+    if spec.prior.is_empty() && rng.chance(1, 10) {
+        let exp = model::expect(&spec);
+        if exp.failure.is_none() {
+            if let Some((path, doc)) = exp.outputs.iter().nth(rng.usize_below(exp.outputs.len().max(1))) {
+                if doc.len() > 40 && !spec.files.iter().any(|f| model::norm(&f.0) == *path) && !spec.fifos.iter().any(|f| model::norm(&f.0) == *path) {
+                    let mut stale = doc.clone();
+                    // change one digit/letter well inside the document
+                    let at = stale.len() / 2 + rng.usize_below(stale.len() / 4);
+                    stale[at] = if stale[at] == b'7' { b'1' } else { b'7' };
+                    spec.files.push((path.clone(), stale));
+                }
+            }
+        }
+    }
     match phase {
         "f0" | "enum" => {}
         "f1" => spec.faults.extend(wgen::transparent_plan(&mut rng)),
@@ -59,7 +75,12 @@ fn make_spec(seed: u64, phase: &str, idx: u64, pool: &Pool) -> RunSpec {
                 .map(|s| s.len() as u64)
                 .or_else(|| model::expect(&spec).outputs.values().next().map(|v| v.len() as u64))
                 .unwrap_or(2000);
-            spec.faults.extend(wgen::hard_plan(&mut rng, hint));
+            if rng.chance(1, 60) {
+                // exit statuses are 8 bits wide: a batch in which exactly 256 (or 255, 257, 512) files fail
+                spec = wgen::gen_wraparound_build(&mut rng);
+            } else {
+                spec.faults.extend(wgen::hard_plan(&mut rng, hint));
+            }
         }
         _ => {}
     }
